@@ -44,7 +44,7 @@ def load_known():
 
 
 def sig_matches(known_sig, sig):
-    return all(sig.get(k) == v for k, v in known_sig.items())
+    return all(sig.get(k) == v for k, v in known_sig.items() if not k.startswith("_"))
 
 
 class Runner:
@@ -59,6 +59,7 @@ class Runner:
         self.violations = []  # confirmed, not known
         self.known_hits = {}  # finding id -> count
         self.unreproduced = []
+        self.unrepresentable_cex = []
         self.mismatches = []
         self.replayed = 0
         self.extra = {}
@@ -141,7 +142,10 @@ class Runner:
             v["text"] = c["text"]
             v["sig"] = c["sig"]
             v["spec"] = res["spec"]
-            if not c["reproduced"]:
+            if c.get("skipped"):
+                v["skipped"] = True
+                self.unrepresentable_cex.append(v)
+            elif not c["reproduced"]:
                 self.unreproduced.append(v)
 
     # ---------------------------------------------------------------- verdicts
@@ -166,6 +170,10 @@ class Runner:
         known = self.classify()
         os.makedirs(EVID, exist_ok=True)
         os.makedirs(REPLAYS, exist_ok=True)
+        import glob
+
+        for old in glob.glob(os.path.join(REPLAYS, f"{self.prop}_{self.tier}_*.json")):
+            os.remove(old)
         # aggregate
         ok = [r for r in self.results if r.get("ok")]
         leaves = [l for r in ok for l in r["leaves"]]
@@ -235,6 +243,8 @@ class Runner:
             shadow_mismatches=len(self.mismatches),
             mismatch_samples=self.mismatches[:3],
             unreproduced_counterexamples=len(self.unreproduced),
+            unrepresentable_counterexample_candidates=len(self.unrepresentable_cex),
+            unrepresentable_candidate_samples=[dict(name=v["name"], env=v["env"], scenario=v["spec"]["scenario"], params=v["spec"].get("params")) for v in self.unrepresentable_cex[:3]],
             unrepresentable_witnesses=sum(1 for l in leaves if l.get("unrepresentable")),
             known_finding_cells={k: len(v) for k, v in self.known_hits.items()},
             functions_encoded=functions,
